@@ -726,6 +726,21 @@ def s02_8_every_binding_verified(ctx, P):
                       bad is None and bool(gs), function=p, site=site(b, h), witness=fmt_path(b, bad) if bad else None,
                       missing='an iteration can complete without a checked verification' if bad else None)
     ctx.floor(P + ':S02-8:floor', 'loops over stored signatures/components in verify_bindings-like functions', n, 8)
+    # ... and the iteration is over ALL of them: no element-dropping adaptor (filter / skip / take ..) sits between the stored list and
+    # the loop - a `verify_third_party` that only looks at the signatures naming the presented key returns Ok for a key that made none
+    m = 0
+    for p, r in sorted(ctx.f.bodies.items()):
+        if r.get('name') not in ('verify_bindings', 'verify_third_party') or not (p.startswith('types::user::') or p.startswith('composed::signed_key::')):
+            continue
+        b = ctx.wrap(r)
+        m += 1
+        drop = [i for i, t in b.calls(r'Iterator::(filter|filter_map|skip|take|skip_while|take_while|step_by|nth|last|find|rev)$')
+                if t['args'] and has_origin(b.operand_origins(t['args'][0]), r'field:\w+\.(signatures|revocation_signatures|users|user_attributes|public_subkeys|secret_subkeys|direct_signatures)$')
+                and t['f']['fn'].split('::')[-1] != 'rev']
+        ctx.check('%s:S02-8:all-items-iterated:%s' % (P, p), 'R-sib', '%s iterates its stored signatures / components without dropping any' % '::'.join(p.split('::')[-2:]),
+                  not drop, function=p, site=site(b, drop[0]) if drop else None,
+                  missing=None if not drop else 'an element-dropping iterator adaptor is applied to the stored list at %s: what it drops is never verified (an empty selection verifies trivially)' % site(b, drop[0]))
+    ctx.floor(P + ':S02-8:all-items:floor', 'verify_bindings-like functions', m, 8)
 
 
 def text_mode_selection(ctx, P):
